@@ -26,9 +26,9 @@ N_CASE = {'quick': 1000, 'thorough': 12000}
 SHAPES = ['ramp-hold', 'ramp', 'triangle', 'pulse']
 
 
-def make_input(spec, h):
-    """piecewise-linear function with breakpoints on the coarse grid"""
-    pts = [(k * h, v) for k, v in spec['points']]
+def make_input(spec, h, t0=0.0):
+    """piecewise-linear function of ABSOLUTE time with breakpoints on the coarse grid (which starts at t0)"""
+    pts = [(t0 + k * h, v) for k, v in spec['points']]
     ts = np.array([p[0] for p in pts]); vs = np.array([p[1] for p in pts])
     return lambda t: np.interp(np.asarray(t, dtype=float), ts, vs)
 
@@ -56,7 +56,8 @@ def transient_case(rng, settle=None):
             k2 = rng.randint(k1 + 2, n // 2)
             pts = [(0, 0.0), (k1, 0.0), (k1 + 1, lv), (k2, lv), (k2 + 1, 0.0), (n, 0.0)]
         inputs[c['id']] = {'shape': shape, 'points': pts, 'level': lv}
-    return {'circuit': cd, 'n': n, 'inputs': inputs, 'settle': settle}
+    # the time axis need not start at zero: t0 is given in units of the step
+    return {'circuit': cd, 'n': n, 'inputs': inputs, 'settle': settle, 't0_steps': rng.choice([0, 0, 0, 37, 1000, 12.5])}
 
 
 def generate(tier, seed, shard, nshards):
@@ -108,11 +109,12 @@ def run_transient(case, ctx, prefix, want=('phi', 'V', 'I'), half=False):
     if raised(circ):
         ctx.violation(f'{prefix}/valid-circuit-rejected/{circ.key}', circ.text, {})
         return None
-    fns = {sid: make_input(spec, h) for sid, spec in case['inputs'].items()}
+    t0 = case.get('t0_steps', 0) * h
+    fns = {sid: make_input(spec, h, t0) for sid, spec in case['inputs'].items()}
     if half:
-        tin = np.arange(2 * n + 1) * (h / 2)
+        tin = t0 + np.arange(2 * n + 1) * (h / 2)
     else:
-        tin = np.arange(n + 1) * h
+        tin = t0 + np.arange(n + 1) * h
     sol = call(TransientSolution, circuit=circ, tin=tin, input=fns)
     if raised(sol):
         ctx.violation(f'{prefix}/simulation-raised/{sol.key}', f'TransientSolution raised {sol.text}', {'order_class': order_class(cd)})
@@ -161,6 +163,8 @@ def judge(case, ctx, prefix='C12'):
     oc = order_class(cd)
     okey = 'hostile-order' if any(oc) else 'conventional-order'
     ctx.count('simulations'); ctx.count('simulations_' + okey)
+    if case.get('t0_steps'):
+        ctx.count('simulations_time_axis_not_from_zero')
     if case.get('sweep_of_previous'):
         ctx.count('simulations_value_sweep')
     h, n = o1['h'], case['n']
@@ -242,7 +246,9 @@ def judge(case, ctx, prefix='C12'):
                           f'{c["ctor"]} {c["id"]!r}: {"C dv" if c["ctor"] == "capacitor" else "L di"} differs from the integral of its {"current" if c["ctor"] == "capacitor" else "voltage"} by {float(np.max(np.abs(lhs - simpson)))!r} (scale {s!r})', {'order_class': oc})
         ctx.count('element_dynamics_checked')
     # (4) independent companion-model reference
-    ref = call(reftr.richardson, cd, circdesc.ground_of(cd), n * h, n, o1['fns'])
+    t0 = case.get('t0_steps', 0) * h
+    rel = {sid: (lambda f: (lambda t: f(np.asarray(t) + t0)))(f) for sid, f in o1['fns'].items()}
+    ref = call(reftr.richardson, cd, circdesc.ground_of(cd), n * h, n, rel)
     if raised(ref):
         ctx.count('reference_unavailable')
     elif ref['richardson_gap'] > 1e-3:
